@@ -508,6 +508,9 @@ pub struct Gen {
     pub opts: GenOpts,
     /// mnemonic that does not occur anywhere in the interface
     pub unknown: String,
+    /// the path the latest non-common unit of `unit_for` left behind, and how the declaration
+    /// that wrote it reads each of its mnemonics (long, short)
+    last_forms: std::cell::RefCell<(Vec<String>, Vec<(String, String)>)>,
 }
 
 pub fn model_of(iface: &IfaceDesc) -> Model {
@@ -531,7 +534,7 @@ impl Gen {
             }
             unknown.push('Q');
         }
-        Gen { iface: *iface, model, decls, spellings, opts, unknown }
+        Gen { iface: *iface, model, decls, spellings, opts, unknown, last_forms: Default::default() }
     }
 
     fn mnems_for(&self, di: usize, sp: &[String], skip: usize) -> Vec<Mnem> {
@@ -603,10 +606,33 @@ impl Gen {
         // prefer a spelling that extends the current path when relative addressing is wanted
         let want_rel = !force_abs && !path.is_empty() && rng.below(8) < self.opts.relative_8;
         let mut sp: &Vec<String> = rng.pick(sps);
+        // A unit is written relative to the path only if this declaration reads every path
+        // mnemonic as a form of the same declared node as the unit that wrote it.  With sibling
+        // nodes that share a spelling (`VOLT` / `VOLTage`) the spelled path alone would also
+        // admit other readings; those messages are left out (both readings of "the path of the
+        // preceding header" agree on everything that is generated).
+        let known_forms: Option<Vec<(String, String)>> = {
+            let l = self.last_forms.borrow();
+            if l.0 == *path {
+                Some(l.1.clone())
+            }
+            else {
+                None
+            }
+        };
+        let agrees = |s: &Vec<String>| -> bool {
+            match &known_forms {
+                None => false,
+                Some(f) => {
+                    let m = self.mnems_for(di, s, 0);
+                    m.len() > f.len() && m[..f.len()].iter().zip(f).all(|(a, b)| a.long == b.0 && a.short == b.1)
+                }
+            }
+        };
         if want_rel {
             let cands: Vec<&Vec<String>> = sps
                 .iter()
-                .filter(|s| s.len() > path.len() && s.iter().zip(path.iter()).all(|(a, b)| a.eq_ignore_ascii_case(b)))
+                .filter(|s| s.len() > path.len() && s.iter().zip(path.iter()).all(|(a, b)| a.eq_ignore_ascii_case(b)) && agrees(s))
                 .collect();
             if !cands.is_empty() {
                 sp = *rng.pick(&cands);
@@ -615,7 +641,8 @@ impl Gen {
         let common = d.is_common();
         let extends = !common
             && sp.len() > path.len()
-            && sp.iter().zip(path.iter()).all(|(a, b)| a.eq_ignore_ascii_case(b));
+            && sp.iter().zip(path.iter()).all(|(a, b)| a.eq_ignore_ascii_case(b))
+            && agrees(sp);
         let (abs, skip) = if common {
             (false, 0)
         }
@@ -632,10 +659,11 @@ impl Gen {
             (true, 0)
         };
         let mut mnems = self.mnems_for(di, sp, 0);
-        let rel_prefix: Vec<Mnem> = mnems.drain(..skip).collect();
         if !common {
             *path = sp[..sp.len() - 1].to_vec();
+            *self.last_forms.borrow_mut() = (path.clone(), mnems[..mnems.len() - 1].iter().map(|m| (m.long.clone(), m.short.clone())).collect());
         }
+        let rel_prefix: Vec<Mnem> = mnems.drain(..skip).collect();
 
         // parameters
         let mut lits = Vec::new();
